@@ -139,6 +139,18 @@ func Inputs() []input {
 		{Locs: []ap.Loc{L(0, 0x1010, r), L(3, 0x30020, g)}, Values: []int64{2, 2}},
 	}
 	ins = append(ins, input{"same-entry-other-binary", p})
+
+	// P10: two residual edges into one node, each redundant only because of the other (a and b call each
+	// other and reach n through frames x and y that default trimming removes), next to a heavy stack:
+	// which one a graphical report drops must not depend on iteration order
+	p = base()
+	xx, yy, nn, hh := ln("x", "x.go", 7), ln("y", "y.go", 8), ln("n", "n.go", 9), ln("heavy", "h.go", 1)
+	p.Stacks = []ap.Stack{
+		{Locs: []ap.Loc{L(0, 0x1020, a), L(0, 0x1030, b), L(0, 0x1070, xx), L(0, 0x1090, nn)}, Values: []int64{3, 3}},
+		{Locs: []ap.Loc{L(0, 0x1030, b), L(0, 0x1020, a), L(0, 0x1080, yy), L(0, 0x1090, nn)}, Values: []int64{4, 4}},
+		{Locs: []ap.Loc{L(0, 0x10a0, hh)}, Values: []int64{1000, 1000}},
+	}
+	ins = append(ins, input{"mutually-redundant-residual-edges", p})
 	return ins
 }
 
